@@ -208,6 +208,61 @@ func VerifH_C05_ScalarAndVectorOperands() {
 			vAssertPolyEq(r, vPhase(c, out), want, tag+"-Sub-subtracts-the-vector-encoded-at-the-operand-scale")
 		}
 	}
+	// product with a vector operand: phase_out = T·phase·pt1 with the vector encoded at scale 1 (so that the scale of
+	// the result is the scale of the ciphertext), the input ciphertext - data and metadata - is left as it was
+	{
+		a0 := a.CopyNew()
+		ref1 := NewPlaintext(params, level)
+		ref1.Scale = params.NewScale(1)
+		if err := c.Ecd.Encode(vec, ref1); err != nil {
+			panic(err)
+		}
+		out := NewCiphertext(params, 1, params.MaxLevel())
+		out.Scale = params.NewScale(9)
+		vAssert(eval.Mul(a, vec, out) == nil, "vector-operand-Mul-no-error")
+		vAssert(a.Scale.Uint64() == 3 && a.Level() == level, "vector-operand-Mul-leaves-the-scale-and-level-of-its-input")
+		for i := range a.Value {
+			vAssertPolyEq(r, a.Value[i], a0.Value[i], "vector-operand-Mul-leaves-its-input-unchanged")
+		}
+		vAssert(out.Level() == level && out.Scale.Uint64()%t == 3, "vector-operand-Mul-level-and-scale")
+		r.MulCoeffsBarrett(pa, ref1.Value, want)
+		r.MulScalar(want, t, want)
+		if out.Level() == level {
+			vAssertPolyEq(r, vPhase(c, out), want, "vector-operand-Mul-multiplies-by-the-vector-encoded-at-unit-scale")
+		}
+		// signed vector entries far outside [-t, t): reduced modulo t like the residues they represent
+		svec := make([]int64, params.MaxSlots())
+		uvec := make([]uint64, params.MaxSlots())
+		for i := range svec {
+			svec[i] = []int64{-3*int64(t) - 1, 5*int64(t) + 2, -1 << 62, 1<<62 + 7}[i%4]
+			uvec[i] = uint64(((svec[i] % int64(t)) + int64(t)) % int64(t))
+		}
+		refS := NewPlaintext(params, level)
+		refS.Scale = a.Scale
+		if err := c.Ecd.Encode(uvec, refS); err != nil {
+			panic(err)
+		}
+		outS := NewCiphertext(params, 1, level)
+		vAssert(eval.Add(a, svec, outS) == nil, "signed-vector-operand-Add-no-error")
+		r.Add(pa, refS.Value, want)
+		vAssertPolyEq(r, vPhase(c, outS), want, "signed-vector-operand-Add-adds-the-residues-modulo-t")
+	}
+	// explicit scale matching: afterwards both operands carry the same scale, each phase was multiplied by the factor
+	// its recorded scale was multiplied by, and the operands then add up
+	{
+		x := vAtomCiphertext(c, 1, level, "x", 3)
+		y := vAtomCiphertext(c, 1, level, "y", 7)
+		px, py := vPhase(c, x), vPhase(c, y)
+		eval.MatchScalesAndLevel(x, y)
+		vAssert(x.Scale.Uint64()%t == y.Scale.Uint64()%t, "MatchScalesAndLevel-scales-match-afterwards")
+		fx := x.Scale.Uint64() % t * vInvMod(3, t) % t
+		fy := y.Scale.Uint64() % t * vInvMod(7, t) % t
+		wx, wy := r.NewPoly(), r.NewPoly()
+		r.MulScalarBigint(px, centred(new(big.Int).SetUint64(fx)), wx)
+		r.MulScalarBigint(py, centred(new(big.Int).SetUint64(fy)), wy)
+		vAssertPolyEq(r, vPhase(c, x), wx, "MatchScalesAndLevel-first-phase-multiplied-by-the-factor-of-its-recorded-scale")
+		vAssertPolyEq(r, vPhase(c, y), wy, "MatchScalesAndLevel-second-phase-multiplied-by-the-factor-of-its-recorded-scale")
+	}
 	vCover("C05-scalar-vector-reached")
 }
 
